@@ -133,45 +133,44 @@ Definition fresh_auto (cats : list cat) (n : nat) : nat := fresh_auto_f (S (leng
 
     [allow_reserved] is the private flag by which [filtered_context] may
     re-register an auto-generated category name (fixes/C14-filter-autogen). *)
-Definition do_add (allow_reserved : bool) (hp : heap) (d : db)
-           (c : option cat) (ms es ss : list spec) (pl : placement) : heap * db * result :=
-  if frozen d then (hp, d, RRaise RuntimeError) else
-  if (match c with Some (CAuto _) => negb allow_reserved | _ => false end)
-  then (hp, d, RRaise ValueError) else
+(** the part of [add_context_category] after the category name is settled *)
+Definition add_named (hp : heap) (d : db) (c' : cat) (ms es ss : list spec) (pl : placement)
+  : heap * db * result :=
   match get_list hp (cl d), get_d hp (dd d),
         get_chain hp (cm_m d), get_chain hp (cm_e d), get_chain hp (cm_s d) with
   | Some cats, Some ddl, Some mm, Some me, Some ms_ =>
-    let (c', d1) := match c with
-                    | Some c' => (c', d)
-                    | None => let n := fresh_auto cats (counter d) in (CAuto n, set_counter (S n) d)
-                    end in
-    if mem_cat c' cats then (hp, d1, RRaise ValueError) else
+    if mem_cat c' cats then (hp, d, RRaise ValueError) else
     let b := length hp in
     let hp1 := hp ++ [ODict (dict_of_specs ms); ODict (dict_of_specs es); ODict (dict_of_specs ss);
                       OCatD b (b + 1) (b + 2)] in
     (* every placement is an insertion at an explicit index of the category
        list, so that the placeholder dict of each ChainMap stays last *)
     let i := place_index cats pl in
-    let hp2 := hset hp1 (cl d1) (OList (insert_at i c' cats)) in
-    let hp3 := hset hp2 (cm_m d1) (OChain (insert_at i b mm)) in
-    let hp4 := hset hp3 (cm_e d1) (OChain (insert_at i (b + 1) me)) in
-    let hp5 := hset hp4 (cm_s d1) (OChain (insert_at i (b + 2) ms_)) in
-    let hp6 := hset hp5 (dd d1) (OD (d_set ddl c' (b + 3))) in
-    (hp6, d1, ROk)
+    let hp2 := hset hp1 (cl d) (OList (insert_at i c' cats)) in
+    let hp3 := hset hp2 (cm_m d) (OChain (insert_at i b mm)) in
+    let hp4 := hset hp3 (cm_e d) (OChain (insert_at i (b + 1) me)) in
+    let hp5 := hset hp4 (cm_s d) (OChain (insert_at i (b + 2) ms_)) in
+    let hp6 := hset hp5 (dd d) (OD (d_set ddl c' (b + 3))) in
+    (hp6, d, ROk)
   | _, _, _, _, _ => (hp, d, RStuck)
   end.
 
-(** * filtered_context: what is read from the source *)
-
-Definition keeps (which : list kind) (k : kind) : bool :=
-  match which with
-  | [] => true
-  | _ => existsb (fun k' => match k, k' with KM, KM | KE, KE | KS, KS => true | _, _ => false end) which
+Definition do_add (allow_reserved : bool) (hp : heap) (d : db)
+           (c : option cat) (ms es ss : list spec) (pl : placement) : heap * db * result :=
+  if frozen d then (hp, d, RRaise RuntimeError) else
+  if (match c with Some (CAuto _) => negb allow_reserved | _ => false end)
+  then (hp, d, RRaise ValueError) else
+  match c with
+  | Some c' => add_named hp d c' ms es ss pl
+  | None =>
+    match get_list hp (cl d) with
+    | Some cats => let n := fresh_auto cats (counter d) in
+                   add_named hp (set_counter (S n) d) (CAuto n) ms es ss pl
+    | None => (hp, d, RStuck)
+    end
   end.
 
-Definition cat_selected (keep excl : list cat) (c : cat) : bool :=
-  (match keep with [] => true | _ => mem_cat c keep end)
-  && (match excl with [] => true | _ => negb (mem_cat c excl) end).
+(** * filtered_context: what is read from the source *)
 
 Definition values_at (hp : heap) (keep : bool) (l : loc) : option (list spec) :=
   if keep then match get_dict hp l with Some x => Some (dict_values x) | None => None end
@@ -200,9 +199,6 @@ Fixpoint snapshot (hp : heap) (ddl : list (cat * loc)) (keep excl : list cat) (w
   end.
 
 (** * extended_with *)
-
-Definition ovr (o : option (option spec)) (dflt : option spec) : option spec :=
-  match o with Some v => v | None => dflt end.
 
 (** returns the heap, the (possibly counter-advanced) source, the new database *)
 Definition do_extend (hp : heap) (d : db) (c : option cat) (ms es ss : list spec)
